@@ -1067,17 +1067,23 @@ Definition parse_attributes (env : tenv) (d : docs) (st : vstate) (lv : expr) (u
   | _ => Err AssertionError
   end.
 
+(* a name assigned more than once by one statement (a = a = 1; a, a = 1, 2) is one attribute: the first one *)
+Definition add_new_attrs (cur : list aitem) (new : list attr) : list aitem :=
+  fold_left (fun acc a =>
+               if existsb (fun it => match it with AIAttr b => str_eqb (a_name b) (a_name a) | AIEnumInst _ _ => false end) acc
+               then acc else acc ++ [AIAttr a]) new cur.
+
 Definition enter_assign (al : aliases) (d : docs) (st : vstate) (lvs : list expr) (ut : option mtype) : res (vstate * W) :=
   do env <- tenv_of al st;
   do items <- fold_left (fun acc lv =>
       do cur <- acc;
       match vs_stack st with
-      | FClass _ :: _ => do a <- parse_attributes env d st lv ut true; Ok (fst cur ++ map AIAttr (fst a), snd cur || snd a)
+      | FClass _ :: _ => do a <- parse_attributes env d st lv ut true; Ok (add_new_attrs (fst cur) (fst a), snd cur || snd a)
       | FFunc f :: gp :: _ =>
         if str_eqb (f_name f) (K"__init__") then
           match gp, lv with
           | FClass _, EName _ _ _ => Ok cur
-          | FClass _, _ => do a <- parse_attributes env d st lv ut false; Ok (fst cur ++ map AIAttr (fst a), snd cur || snd a)
+          | FClass _, _ => do a <- parse_attributes env d st lv ut false; Ok (add_new_attrs (fst cur) (fst a), snd cur || snd a)
           | _, _ => Ok cur
           end
         else Ok cur
